@@ -36,6 +36,11 @@ func (in *Interp) expr(e ast.Expr) Value {
 		if sel, ok := info.Selections[x]; ok && sel.Kind() == types.MethodVal {
 			in.fail(x, "method value")
 		}
+		if sel, ok := info.Selections[x]; ok && sel.Kind() == types.MethodExpr {
+			if fn, ok := sel.Obj().(*types.Func); ok {
+				return &FuncVal{MethodExpr: fn}
+			}
+		}
 		return in.lvalue(x).V
 	case *ast.StarExpr:
 		return in.lvalue(x).V
@@ -600,6 +605,29 @@ func (in *Interp) args(call *ast.CallExpr, sig *types.Signature) []Value {
 	return out
 }
 
+// argsPacked evaluates the arguments for a call of a function of the module: the trailing arguments of a variadic
+// call are packed into a fresh slice, as the compiler does.
+func (in *Interp) argsPacked(call *ast.CallExpr, sig *types.Signature) []Value {
+	out := in.args(call, sig)
+	if sig == nil || !sig.Variadic() || call.Ellipsis.IsValid() {
+		return out
+	}
+	n := sig.Params().Len()
+	if len(out) < n-1 {
+		return out
+	}
+	st := sig.Params().At(n - 1).Type().(*types.Slice)
+	rest := out[n-1:]
+	if len(rest) == 0 {
+		return append(out[:n-1:n-1], &Slice{Nil: true, Back: &Backing{}, Elem: st.Elem()})
+	}
+	bk := &Backing{}
+	for _, v := range rest {
+		bk.E = append(bk.E, &Cell{Copy(v)})
+	}
+	return append(out[:n-1:n-1], &Slice{Back: bk, Hi: len(bk.E), Cap: len(bk.E), Elem: st.Elem()})
+}
+
 func single(res []Value) Value {
 	switch len(res) {
 	case 0:
@@ -658,9 +686,9 @@ func (in *Interp) call(x *ast.CallExpr) Value {
 					in.fail(x, "dynamic type %s has no method %s", dynT, fn.Name())
 				}
 				if p, ok := dyn.(*Ptr); ok {
-					return single(in.callFunc(cf, p.To, nil, in.args(x, cf.Type().(*types.Signature))))
+					return single(in.callFunc(cf, p.To, nil, in.argsPacked(x, cf.Type().(*types.Signature))))
 				}
-				return single(in.callFunc(cf, nil, dyn, in.args(x, cf.Type().(*types.Signature))))
+				return single(in.callFunc(cf, nil, dyn, in.argsPacked(x, cf.Type().(*types.Signature))))
 			}
 			if fn.Pkg() == nil || !strings.HasPrefix(fn.Pkg().Path(), "github.com/brocaar/lorawan") {
 				var rv Value
@@ -687,7 +715,7 @@ func (in *Interp) call(x *ast.CallExpr) Value {
 					recvCell = p.To
 				}
 			}
-			return single(in.callFunc(fn, recvCell, recvVal, in.args(x, fn.Type().(*types.Signature))))
+			return single(in.callFunc(fn, recvCell, recvVal, in.argsPacked(x, fn.Type().(*types.Signature))))
 		}
 		// package-qualified function
 		if fn, ok := info.Uses[sel.Sel].(*types.Func); ok {
@@ -700,7 +728,7 @@ func (in *Interp) call(x *ast.CallExpr) Value {
 		in.fail(x, "call through a function value")
 	}
 	if lit, ok := fun.(*ast.FuncLit); ok {
-		return single(in.callFuncLit(lit, in.args(x, info.TypeOf(lit).(*types.Signature))))
+		return single(in.callFuncLit(lit, in.argsPacked(x, info.TypeOf(lit).(*types.Signature))))
 	}
 	switch fun.(type) {
 	case *ast.IndexExpr, *ast.CallExpr:
@@ -731,7 +759,7 @@ func (in *Interp) isForeignPkgVar(e ast.Expr) bool {
 
 func (in *Interp) callResolved(fn *types.Func, recvCell *Cell, recvVal Value, x *ast.CallExpr) []Value {
 	if fn.Pkg() != nil && strings.HasPrefix(fn.Pkg().Path(), "github.com/brocaar/lorawan") {
-		return in.callFunc(fn, recvCell, recvVal, in.args(x, fn.Type().(*types.Signature)))
+		return in.callFunc(fn, recvCell, recvVal, in.argsPacked(x, fn.Type().(*types.Signature)))
 	}
 	return in.foreign(fn, nil, x)
 }
